@@ -41,6 +41,7 @@ type outcome struct {
 	Schedules        []string   `json:"schedules,omitempty"`
 	Stall            *stall     `json:"stall,omitempty"`
 	ProbeUploads     int        `json:"probe_uploads"`
+	TwinDeliveries   int        `json:"deliveries_verified_at_second_handler"`
 	Expected         int        `json:"blobs_expected_at_destination"`
 	PrePopulated     int        `json:"pre_populated_source_blobs"`
 	QueueReopens     int        `json:"queue_file_reopens"`
@@ -93,6 +94,11 @@ func (w *world) complete(inc *incarnation, acked map[string]bool) bool {
 		b, _ := w.blobOf(ref)
 		if w.deliveredState(b) != "ok" {
 			return false
+		}
+		if w.dst2Mem != nil {
+			if c, ok := w.dst2Mem.BlobContents(b.Ref); !ok || c != string(b.Data) {
+				return false
+			}
 		}
 	}
 	rows, err := w.queueRows()
@@ -166,6 +172,11 @@ func (w *world) drive(inc *incarnation, retry []sto.Blob, acked map[string]bool,
 		if it == 0 {
 			retry = append(retry, w.client(inc, []sto.Blob{newFiller(w.sc)}, false, acked, o)...)
 		}
+		var twinIdle chan struct{}
+		if inc.sh2 != nil {
+			twinIdle = make(chan struct{})
+			go func() { inc.sh2.IdleWait(); close(twinIdle) }()
+		}
 		idle, st, why := w.awaitIdle(inc, acked, idleWatchdog, func() {
 			// the loop does not go idle although nothing is pending: one more client upload
 			o.ProbeUploads++
@@ -178,6 +189,15 @@ func (w *world) drive(inc *incarnation, retry []sto.Blob, acked map[string]bool,
 		if !idle {
 			o.Inconclusive = "IdleWait did not return within the watchdog and no closed wait cycle of the copy loop was established (" + why + ")"
 			return retry, true
+		}
+		if twinIdle != nil {
+			select {
+			case <-twinIdle:
+				o.IdleWaits++
+			case <-time.After(idleWatchdog):
+				o.Inconclusive = "IdleWait of the twin handler did not return within the watchdog"
+				return retry, true
+			}
 		}
 		used++
 		o.IdleWaits++
@@ -652,6 +672,7 @@ func (w *world) finalState(inc *incarnation, acked map[string]bool, flagged map[
 	}
 	sort.Strings(refs)
 	o.Deliveries = 0
+	o.TwinDeliveries = 0
 	for _, ref := range refs {
 		b, _ := w.blobOf(ref)
 		st := w.deliveredState(b)
@@ -673,6 +694,28 @@ func (w *world) finalState(inc *incarnation, acked map[string]bool, flagged map[
 				ref, w.sc.Dest, o.Incarnations, o.IdleWaits, w.rowKeys())
 		default:
 			o.add("corrupt-delivered/"+o.sigKind, "%s at the %s destination: %s", ref, w.sc.Dest, st)
+		}
+	}
+	if w.dst2Mem != nil {
+		// the twin handler owes the same delivery to its own destination
+		for _, ref := range refs {
+			b, _ := w.blobOf(ref)
+			c, ok := w.dst2Mem.BlobContents(b.Ref)
+			switch {
+			case !ok:
+				rows2 := []string{}
+				it := w.q2Mem.Find("", "")
+				for it.Next() {
+					rows2 = append(rows2, it.Key())
+				}
+				it.Close()
+				o.add("not-delivered/"+o.sigKind+"/second-handler", "%s was acknowledged by the source but is not at the destination of the second sync handler attached to the same source after %d incarnations and %d idle waits (its queue rows: %v)",
+					ref, o.Incarnations, o.IdleWaits, rows2)
+			case c != string(b.Data):
+				o.add("corrupt-delivered/"+o.sigKind+"/second-handler", "%s at the second handler's destination: content differs", ref)
+			default:
+				o.TwinDeliveries++
+			}
 		}
 	}
 	if bad, _ := w.tap.corruptSends(); len(bad) > 0 {
